@@ -100,3 +100,18 @@ Proof. exact shrunk_ex_inv0. Qed.
 (* the lock discipline of the init transaction (the max-size update) releases everything: C09 *)
 Example C14_ex : grow_data_end 64 1024 64 70 = 70 /\ grow_data_end 64 66 64 70 = 66 /\ grow_data_end 64 0 64 70 = 70 /\ grow_data_end 64 32 64 70 = 64.
 Proof. repeat split. Qed.
+
+(* a side finding of a round-13 sub-agent, stated on the model (tie: allocator K1 compares commit_ends with the code):
+   when the meta end marker EQUALS the data end marker (the meta area ends at the end of the file) and free meta pages at
+   the end of the file are released by a shrinking commit, only the meta end marker is lowered: the released pages stay
+   below the data end marker and are in no free list any more - they are lost until the file is rebuilt, and the free
+   data region in front of them can no longer be released. No live page is touched and the file does not grow, so none
+   of the statements of C14 / C11 (files beyond their limit are outside C11) is violated; recorded, not repaired. *)
+From VF Require Import Recover.
+Theorem C14_release_at_equal_end_markers_leaks : exists newData newMeta mx dEnd mEnd id,
+  let '(ml, dl, dE, mE, _, _) := commit_ends newData newMeta mx dEnd mEnd in
+  in_regions id newMeta = true /\ in_regions id ml = false /\ in_regions id dl = false /\ id < Z.max dE mE /\ mx <= id.
+Proof.
+  exists [{| rid := 60; rcount := 32 |}], [{| rid := 92; rcount := 2 |}], 50, 94, 94, 92.
+  vm_compute. repeat split; try reflexivity; discriminate.
+Qed.
